@@ -20,6 +20,9 @@ FULL statement of DESIGN §4 C15, all proved below for every request and every h
   accept_preserves_WF : WF d s → NotRootAdd op → (step d s op).2 = true → WF d (step d s op).1     (§7)
   history_WF / reachable_WF, reject_is_noop, delete_guard, no_cycle / cycle_rejected.
 `accept_preserves_forest` (formerly `accept_preserves_forest`) is the structural part, kept as a lemma.
+§10 restates preservation / history / delete guard for RAW requests (`stepRaw`, `runRaw`): the model decodes labels,
+annotations, nil-vs-empty maps, the pod listing and the mutating default-filling as the code does (Model: `Raw`,
+`decodeQI`, `fill`, `decodeOp`); these decoders are tied to the code by the differential runs.
 Explicit hypothesis `NotRootAdd`: a create request NAMED koordinator-root-quota (which the scheduler does
 send, createRootQuotaIfNotPresent) records a quota named root, so `Forest.nonzero` cannot survive it; the
 harness never generates it in the main/exhaustive streams and exercises it in the separate root-add
@@ -351,20 +354,50 @@ theorem history_children_map (d : Nat) (ops : List Op) : ∀ s, KidsMap s → Ki
 /-- a raw create request is not named koordinator-root-quota. -/
 def NotRootAddRaw : RawOp → Prop
   | .add r => r.name ≠ 0
+  | .madd r => r.name ≠ 0
   | _ => True
 
-theorem notRootAdd_decode (s : Topo) (r : RawOp) (h : NotRootAddRaw r) : NotRootAdd (decodeOp s r) := by
+/-- the mutating step never renames the object. -/
+theorem fill_name {s : Topo} {r r' : Raw} (h : fill s r = some r') : r'.name = r.name := by
+  unfold fill at h
+  split at h
+  · cases h; rfl
+  · simp only at h
+    split at h
+    · cases h
+    · split at h
+      · cases h
+      · cases h; rfl
+
+theorem notRootAdd_decode (s : Topo) (r : RawOp) (op : Op) (h : NotRootAddRaw r) (hd : decodeOp s r = some op) :
+    NotRootAdd op := by
   cases r with
-  | add r => simpa [decodeOp, NotRootAdd, NotRootAddRaw, decodeQI] using h
-  | upd r le pods => simp [decodeOp, NotRootAdd]
-  | del n le pods => simp [decodeOp, NotRootAdd]
+  | add r => simp only [decodeOp, Option.some.injEq] at hd; subst hd; simpa [NotRootAdd, NotRootAddRaw, decodeQI] using h
+  | madd r =>
+    simp only [decodeOp] at hd
+    cases hf : fill s r with
+    | none => simp [hf] at hd
+    | some r' =>
+      simp only [hf, Option.some.injEq] at hd; subst hd
+      have := fill_name hf
+      simpa [NotRootAdd, NotRootAddRaw, decodeQI, this] using h
+  | upd r le pods => simp only [decodeOp, Option.some.injEq] at hd; subst hd; simp [NotRootAdd]
+  | del n le pods => simp only [decodeOp, Option.some.injEq] at hd; subst hd; simp [NotRootAdd]
 
 theorem raw_accept_preserves_WF (d : Nat) (s : Topo) (r : RawOp) (hW : WF d s) (hr : NotRootAddRaw r)
-    (h : (stepRaw d s r).2 = true) : WF d (stepRaw d s r).1 :=
-  accept_preserves_WF d s (decodeOp s r) hW (notRootAdd_decode s r hr) h
+    (h : (stepRaw d s r).2 = true) : WF d (stepRaw d s r).1 := by
+  unfold stepRaw at h ⊢
+  cases hd : decodeOp s r with
+  | none => simp [hd] at h
+  | some op =>
+    simp only [hd] at h ⊢
+    exact accept_preserves_WF d s op hW (notRootAdd_decode s r op hr hd) h
 
-theorem raw_reject_is_noop (d : Nat) (s : Topo) (r : RawOp) (h : (stepRaw d s r).2 = false) : (stepRaw d s r).1 = s :=
-  reject_is_noop d s (decodeOp s r) h
+theorem raw_reject_is_noop (d : Nat) (s : Topo) (r : RawOp) (h : (stepRaw d s r).2 = false) : (stepRaw d s r).1 = s := by
+  unfold stepRaw at h ⊢
+  cases hd : decodeOp s r with
+  | none => rfl
+  | some op => simp only [hd] at h ⊢; exact reject_is_noop d s op h
 
 theorem raw_history_WF (d : Nat) (rs : List RawOp) (hrs : ∀ r ∈ rs, NotRootAddRaw r) :
     ∀ s, WF d s → WF d (runRaw d s rs) := by
